@@ -7,7 +7,7 @@ single show is fed to a fresh shell which must behave as the table says."""
 import json
 import random
 
-from common import Report, ToolError, check_action_coverage, log, run_cases, run_tlc, std_main
+from common import HELPERS, Report, ToolError, check_action_coverage, log, run_cases, run_tlc, std_main
 
 NONE = "<none>"
 NAMES = ["n1", "a.b", "x-y", "_u", "vpa", "vmk", "7z", "4.2"]      # 4.2: a name of digits and dots only
@@ -45,7 +45,9 @@ def render(hist):
             else:
                 # a non-first word - also right after a quoted operator character, which is an argument, not a new command
                 dec = NF_DECOYS[i % len(NF_DECOYS)]
-                lines.append("vpa NF%d %s%s" % (i, dec[0], n))
+                # (the probe is called by its path: `vpa` itself may be an alias at this point - of a pipeline whose last stage
+                # does not record its arguments - and a command word with a slash is never an alias)
+                lines.append("%s/vpa NF%d %s%s" % (HELPERS, i, dec[0], n))
     return "\n".join(lines) + "\n"
 
 
